@@ -149,6 +149,7 @@ type vfC17Mon struct {
 	asked     map[string]int    // per heartbeat
 	idwMsgs   map[string]int    // per heartbeat
 	seen      map[string]bool
+	prom      map[string]time.Duration // "peer|msg" -> deadline of an outstanding IWANT promise (own model, fed by the wire)
 }
 
 func vfC17Canon(in *vfGWInst) string {
@@ -169,6 +170,9 @@ func vfC17Canon(in *vfGWInst) string {
 	}
 	for k, v := range m.idwMsgs {
 		l = append(l, fmt.Sprintf("idw[%s]=%d", k, v))
+	}
+	for k, v := range m.prom {
+		l = append(l, fmt.Sprintf("prom[%s]=%d", k, (v-in.last.Now)/time.Millisecond))
 	}
 	sort.Strings(l)
 	return strings.Join(l, ",") + "|" + strings.Join(vfKeys(m.seen), ",")
@@ -225,9 +229,31 @@ func vfC17Oracle(in *vfGWInst, evFull string, pre, post *vfSnap) {
 		sort.Strings(ids)
 		return
 	}
+	// a message enters the message cache when it is published / forwarded, i.e. once validation released it
+	for _, dl := range g.deliv {
+		if _, ok := m.putTick[dl.id]; !ok {
+			m.putTick[dl.id] = pre.Ticks
+		}
+	}
 	if f[0] != "hb" && post.Ticks != pre.Ticks {
 		// heartbeats elapsed inside a time advance: the per-heartbeat counters were reset
 		m.ihaveMsgs, m.asked, m.idwMsgs = map[string]int{}, map[string]int{}, map[string]int{}
+		// promises that expired before the last heartbeat of the step were penalised there: judge the sum
+		lastHB := post.Now - (post.Now % params.HeartbeatInterval)
+		expect := map[string]float64{}
+		for k, deadline := range m.prom {
+			if deadline < lastHB {
+				expect[k[:strings.IndexByte(k, '|')]]++
+				delete(m.prom, k)
+			}
+		}
+		for _, p := range g.order {
+			if _, tracked := pre.Penalty[p]; tracked {
+				if d := post.Penalty[p] - pre.Penalty[p]; d != expect[p] {
+					in.bad("c17:promise-penalty", "time advance over %d heartbeat(s) changed the behaviour penalty of %s by %v, but %v of its IWANT promises expired unanswered", post.Ticks-pre.Ticks, p, d, expect[p])
+				}
+			}
+		}
 	}
 	switch f[0] {
 	case "pub", "lpub":
@@ -244,7 +270,12 @@ func vfC17Oracle(in *vfGWInst, evFull string, pre, post *vfSnap) {
 		accepted := f[0] == "lpub" || (g.conn[source] && !m.seen[label] && (pre.MySubs[topic] > 0 || pre.MyRelays[topic] > 0) && !graylisted)
 		if accepted {
 			m.seen[label] = true
-			m.putTick[label] = pre.Ticks
+			// the message arrived (from anyone): every promise for it is kept
+			for k := range m.prom {
+				if strings.HasSuffix(k, "|"+label) {
+					delete(m.prom, k)
+				}
+			}
 		}
 		// IDONTWANT emission (only for messages received from a peer: Preprocess of local publications
 		// also announces, with the node itself as sender)
@@ -370,6 +401,19 @@ func vfC17Oracle(in *vfGWInst, evFull string, pre, post *vfSnap) {
 			in.count("iwant_sent")
 			if len(post.Promises[x]) == 0 {
 				in.bad("c17:no-promise", "node sent IWANT to %s but tracks no promise", x)
+			}
+			// which of the requested ids the router tracks is its (explorer-owned) random pick: learn the pick
+			// from the tracer, keep the deadline and the fulfilment in our own model
+			for _, l := range post.Promises[x] {
+				isNew := true
+				for _, o := range pre.Promises[x] {
+					if o == l {
+						isNew = false
+					}
+				}
+				if isNew {
+					m.prom[x+"|"+l] = pre.Now + params.IWantFollowupTime
+				}
 			}
 		}
 	case "idw":
@@ -506,12 +550,14 @@ func vfC17Oracle(in *vfGWInst, evFull string, pre, post *vfSnap) {
 				}
 			}
 		}
-		// promise penalties: exactly the promises that expired unanswered
+		// promise penalties: exactly the promises (own model) that expired without the message arriving from anyone
 		expect := map[string]float64{}
-		for k, rem := range pre.PromExp {
-			if rem-(post.Now-pre.Now-time.Millisecond) < 0 { // the heartbeat ran 1ms before the end of the step
+		hbTime := post.Now - time.Millisecond // the heartbeat ran 1ms before the end of the step
+		for k, deadline := range m.prom {
+			if deadline < hbTime {
 				p := k[:strings.IndexByte(k, '|')]
 				expect[p]++
+				delete(m.prom, k)
 			}
 		}
 		for _, p := range g.order {
@@ -555,12 +601,16 @@ func vfC17Scenarios(thorough bool) []*vfGWScenario {
 	mk("ihave-caps", []string{"ihave:a:t:m1", "ihave:a:t:m2+m3", "ihave:a:t:m1+m2+m3", "ihave:d:t:m5", "ihave:a:t:m6", "pub:b:m1", "hb", "score:a:-1.5", "score:a:-1", "leave:t"})
 	mk("idontwant", []string{"idw:b:m1", "idw:b:m2", "idw:b:m1+m2+m3", "idw:a:m3", "pub:c:m1", "pub:c:s1", "pub:a:m2", "hb", "prune:b:t", "graft:a:t"})
 	mk("promises", []string{"ihave:a:t:m1", "ihave:d:t:m1", "ihave:a:t:m2+m3", "pub:b:m1", "pub:a:m2", "hb", "adv:2100", "adv:900"})
+	// the promised message arrives in time but sits in (gated) validation across the follow-up deadline
+	mk("promises-slow-validation", []string{"ihave:a:t:m1", "ihave:d:t:m1", "pub:a:m1", "pub:b:m1", "vrel:V:m1:A", "vrel:V:m1:I", "hb", "adv:2100", "adv:900"})
+	out[len(out)-1].Cfg.Validators = []vfValCfg{{Name: "V", Topic: "t", Gated: true, Verdict: "A"}}
+	out[len(out)-1].Depth = d + 1
 	return out
 }
 
 func vfC17Mk(x *vfExec, sc *vfGWScenario) vfInstance {
 	in := newVfGWInst(x, sc, nil)
-	in.mon = &vfC17Mon{putTick: map[string]uint64{}, served: map[string]int{}, ihaveMsgs: map[string]int{}, asked: map[string]int{}, idwMsgs: map[string]int{}, seen: map[string]bool{}}
+	in.mon = &vfC17Mon{putTick: map[string]uint64{}, served: map[string]int{}, ihaveMsgs: map[string]int{}, asked: map[string]int{}, idwMsgs: map[string]int{}, seen: map[string]bool{}, prom: map[string]time.Duration{}}
 	in.monCanon = vfC17Canon
 	in.oracle = vfC17Oracle
 	return in
